@@ -103,10 +103,12 @@ def run(ctx):
     # ---- R1 dispatch
     r1 = chk.rule("R1-dispatch-well-formed", "each X::process call is dominated by the true edge of X's own matcher; the catch-all matcher is tested last; both dispatchers test the controllers in the same order", floor=20)
     dispatchers = []
-    for fn in F.rws_fns():
-        if fn.kind == "Promoted":
-            continue
-        ms = [callee_name(t) for _, t in fn.calls() if re.search(r"::is_matching(_request)?$", callee_name(t) or "")]
+    from ..inline import is_private_helper
+    for fn0 in F.rws_fns():
+        if fn0.kind in ("Promoted", "Closure") or is_private_helper(F, fn0.def_):
+            continue        # a private step (`route`, `offer::<C>`) is part of the public function that calls it (A11)
+        fn = ctx.inl(fn0)
+        ms = [callee_name(t) for _, t in fn.calls() if re.search(r"::is_matching(_request)?$", callee_name(t) or "") and " as " in (callee_name(t) or "") or re.search(r"Controller::is_matching_request$", callee_name(t) or "")]
         if len(set(ms)) >= 5:
             dispatchers.append(fn)
     if len(dispatchers) < 2:
@@ -207,7 +209,9 @@ def run(ctx):
                         fields = [e[2] for e in o[1][1] if isinstance(e, tuple) and e[0] == "f" and len(e) > 2]
                         if o[1][0] == 1:
                             return "request_uri" in fields
-                        w = mdu.val_place((o[1][0], ()))
+                        w = mdu.val_place((o[1][0], tuple(o[1][1])))
+                        if w == o or w[0] == "place":
+                            w = mdu.val_place((o[1][0], ()))
                         return w != o and w[0] != "place" and target_like(w, depth + 1)
                     if o[0] == "call" and o[2]:
                         nm = o[1] or ""
@@ -216,7 +220,12 @@ def run(ctx):
                         return target_like(o[2][0], depth + 1)
                     return False
                 return target_like(others[0])
-            ok = true_implies_key_equality(mi, is_key)
+            verdict = true_implies_key_equality(mi, is_key)
+            if verdict is None:
+                r5.note("%s: the matcher is written with a construct the judgement does not follow (combinator / opaque call): not decided" % c)
+                r5.floor = min(r5.floor, 4)
+                continue
+            ok = verdict
             r5.instance({"dispatcher": fn.def_, "controller": c, "matches_only_its_constant_path": ok}, ok)
             if not ok:
                 r5.violate("C02|R7|%s|%s|not-a-fixed-path" % (fn.def_, c), "%s is tested before the static-resource controller and can match without an equality of the request path with a constant having succeeded: it answers for files of the served directory (and for paths that must be 404 / refused)" % c, mfn.file, mfn.span["line"], mfn.def_)
@@ -230,12 +239,18 @@ def run(ctx):
     r8 = chk.rule("R8-containment-check-is-exact", "the containment predicate's depth is exactly the real depth (name +1, '.' and '' 0, '..' -1) and '..' is answered 'outside' only at depth 0: a target such as /sub/../file that stays inside the served directory is looked up, not refused", floor=5)
     from .. import segments
     from .c01 import find_predicates
-    for pfn, _seps in find_predicates(F):
+    _preds = find_predicates(F)
+    if not _preds:
+        r8.floor = 0        # C01.R4 reports the missing predicate; nothing to judge here
+    for pfn, _seps in _preds:
         pres = segments.precision_verdicts(pfn)
         if pres is None:
             r8.floor = 0
             r8.note("%s is not a segment walk with a depth: not decided by this rule" % pfn.def_)
             continue
+        if len(pres) < 5:
+            r8.floor = 0
+            r8.note("%s: some paths through the loop body are not followed by the evaluation (helper / adaptor); only the followed ones are judged" % pfn.def_)
         seen_k = set()
         for cls, ok, why, line in pres:
             r8.instance({"predicate": pfn.def_, "segment_class": cls, "path_outcome": why}, ok)
